@@ -1080,6 +1080,10 @@ def move_imports_to_toplevel(source: str) -> str:
                 removals.pop()
                 continue
             safe_position_lineno = max(module_import_linenos)
+            if safe_position_lineno > node.lineno:
+                # The existing import comes later, which may be after this one is needed
+                removals.pop()
+                continue
 
         if isinstance(node, ast.Import) and safe_position_lineno == lineno:
             new_node = ast.Import(names=node.names, lineno=lineno)
